@@ -2,7 +2,7 @@ SPECIFICATION Spec
 CONSTANTS MaxLen = 7
           MaxPolls = 0
           Wide = FALSE
-          Fixes = {}
+          Fixes = {"D2", "D3"}
 INVARIANT Emit
 VIEW Class
 CHECK_DEADLOCK FALSE
